@@ -60,3 +60,14 @@ Theorem C06_clear_after_drain_strands :
   stuck (drun false d0 [SPut; SSet; SDispatcher; SDispatcher; SDispatcher; SPut; SSet; SDispatcher]) = true.
 Proof. exact clear_after_drain_strands. Qed.
 Print Assumptions C06_clear_after_drain_strands.
+
+(* "one at a time", also across stop()/start(): the dispatcher thread of a new connection (Gen/Dispatcher.v, regenerated: it first joins
+   the thread that is inside a callback, and stop() joins nobody while a callback runs) never begins a callback while the callback of a
+   thread that stop() left behind is still running - for every order of restarts, dispatcher steps and returns ... *)
+Theorem C06_one_callback_at_a_time : forall tr, g_overlap (grun dispatcher_waits_for_previous g0 tr) = false.
+Proof. exact one_callback_at_a_time. Qed.
+Print Assumptions C06_one_callback_at_a_time.
+(* ... and it would without the wait (D51) *)
+Theorem C06_no_wait_overlaps : g_overlap (grun false g0 [GCurrent; GRestart; GCurrent]) = true.
+Proof. exact no_wait_overlaps. Qed.
+Print Assumptions C06_no_wait_overlaps.
